@@ -3,6 +3,7 @@ package tree
 import (
 	"context"
 	"math"
+	"slices"
 	"strings"
 	"sync"
 	"time"
@@ -125,15 +126,34 @@ func (c *TreeCacheClientImpl) GetBranchesHighesPrecedence(ctx context.Context, p
 	}
 	defer c.intendedStoreIndexMutex.RUnlock()
 
+	// The joined key is only a pre-filter: the keys of siblings like "case1x" or "case1_b" also start with the key of
+	// "case1". Whether an entry really lies in the branch is decided on its own path, element by element.
+	branchFilters := append(slices.Clone(filters), func(u *cache.Update) bool {
+		return pathHasPrefix(u.GetPath(), path)
+	})
+
 	// TODO: Improve this, since it is probably an expensive operation
 	for key, entries := range c.intendedStoreIndex {
 		if strings.HasPrefix(key, pathKey) {
-			if prio := entries.GetLowestPriorityValue(filters); prio < result {
+			if prio := entries.GetLowestPriorityValue(branchFilters); prio < result {
 				result = prio
 			}
 		}
 	}
 	return result
+}
+
+// pathHasPrefix reports whether prefix is an element-wise prefix of p.
+func pathHasPrefix(p []string, prefix []string) bool {
+	if len(prefix) > len(p) {
+		return false
+	}
+	for i := range prefix {
+		if p[i] != prefix[i] {
+			return false
+		}
+	}
+	return true
 }
 
 func (c *TreeCacheClientImpl) ReadCurrentUpdatesHighestPriorities(ctx context.Context, ccp PathSlices, count uint64) UpdateSlice {
